@@ -33,6 +33,10 @@ func IOCodec(rwc io.ReadWriteCloser) *jsonCodec {
 type jsonCodec struct {
 	rwc        io.ReadWriteCloser
 	remoteAddr string
+
+	// buffered holds what the previous ReadMessage's decoder read past the end
+	// of its message.
+	buffered io.Reader
 }
 
 func (codec *jsonCodec) RemoteAddr() string {
@@ -41,7 +45,16 @@ func (codec *jsonCodec) RemoteAddr() string {
 
 func (codec *jsonCodec) ReadMessage() (*Message, error) {
 	var msg Message
-	err := json.NewDecoder(codec.rwc).Decode(&msg)
+	// The decoder may read ahead into the next message (when several arrive
+	// in one read), so whatever it has left is carried over to the next call
+	// rather than dropped with the decoder.
+	var r io.Reader = codec.rwc
+	if codec.buffered != nil {
+		r = io.MultiReader(codec.buffered, codec.rwc)
+	}
+	dec := json.NewDecoder(r)
+	err := dec.Decode(&msg)
+	codec.buffered = dec.Buffered()
 	return &msg, err
 }
 
